@@ -1,6 +1,6 @@
 (* C12 property theorems. Nothing but statements closed by `exact lemma` and Print Assumptions. *)
 From Coq Require Import ZArith NArith List Bool.
-From OG Require Import C12.Model C12.Proofs C12.ProofsParse C12.ProofsSet C12.ProofsLex C12.ProofsLexMain C12.Chunk C12.ChunkProofs C12.Gen_Tokens C12.Inst.
+From OG Require Import C12.Model C12.Proofs C12.ProofsParse C12.ProofsSet C12.ProofsLex C12.ProofsLexMain C12.Chunk C12.ChunkProofs C12.Regroup C12.Gen_Tokens C12.Inst.
 Import ListNotations.
 Open Scope N_scope.
 
@@ -113,6 +113,37 @@ Example C12_int_limits :
   Inst.parse (print_toks_v true true (EBin OSub (EInt (-9223372036854775808)) (EInt 9223372036854775807)))
   = Some (EBin OSub (EInt (-9223372036854775808)) (EInt 9223372036854775807)).
 Proof. vm_compute. reflexivity. Qed.
+
+(* REGROUPING PRINTER (the repaired BinaryExpr printer: an operand that a reader would group differently is printed in
+   parentheses; as a tree transformation `fixp`).  For ALL trees whose atoms are printable (`canon_np`: no condition on
+   the parenthesisation at all - in particular the statement parser's `(A OR B) AND C` without a ParenExpr and the
+   `b / (-1 * a)` of a unary minus) the printed text scans and parses back to the tree plus exactly the parentheses that
+   were printed: same operators, same grouping (`strip` removes ParenExpr nodes). *)
+Theorem C12_regroup_print_scan_parse : forall prec isop op_text kws op_of_code ct cf cfield ctag cdistinct nr dr,
+  lex_tables isop op_text kws op_of_code ct cf cfield ctag cdistinct ->
+  forall e, canon_np prec isop kws nr dr false e = true ->
+  Model.parse prec isop (Model.scan kws op_of_code ct cf cfield ctag cdistinct (Model.print_text op_text kws nr dr (fixp prec e)))
+    = Some (fixp prec e) /\ strip (fixp prec e) = strip e.
+Proof.
+  intros prec isop op_text kws op_of_code ct cf cfield ctag cdistinct nr dr HT e H. split.
+  - apply (print_scan_parse prec isop op_text kws op_of_code ct cf cfield ctag cdistinct nr dr HT).
+    apply (fixp_canon prec isop kws nr dr (ProofsParse.size e)); [apply le_n | exact H].
+  - apply (strip_fixp prec isop (ProofsParse.size e)). apply le_n.
+Qed.
+Print Assumptions C12_regroup_print_scan_parse.
+
+(* non-vacuity: the two trees of the open findings satisfy the hypothesis under the live tables, and their repaired text
+   reads back with the same grouping *)
+Definition ex_and_or : expr :=
+  EBin OAnd (EBin OOr (EBin OEq (EVar [97] DUnknown) (EInt 1)) (EBin OEq (EVar [98] DUnknown) (EInt 2))) (EBin OEq (EVar [99] DUnknown) (EInt 3)).
+Definition ex_unary_minus : expr := EBin ODiv (EVar [98] DUnknown) (EBin OMul (EInt (-1)) (EVar [97] DUnknown)).
+Example C12_ex_regroup_hyp : canon_np Inst.prec Inst.isop keywords true true false ex_and_or = true /\
+                             canon_np Inst.prec Inst.isop keywords true true false ex_unary_minus = true.
+Proof. split; vm_compute; reflexivity. Qed.
+Example C12_ex_regroup_roundtrip :
+  option_map strip (Inst.parse (Inst.scan (print_text_v true true (fixp Inst.prec ex_and_or)))) = Some ex_and_or /\
+  option_map strip (Inst.parse (Inst.scan (print_text_v true true (fixp Inst.prec ex_unary_minus)))) = Some ex_unary_minus.
+Proof. split; vm_compute; reflexivity. Qed.
 
 (* RESULT CHUNKS: the generated codec (ChunkImpl / ColumnImpl / Bitmap / ChunkTags / floatTuple Marshal, Unmarshal, Size
    over lib/codec) modelled at byte level.  For every chunk whose parts fit the wire format (counts below 2^32, name below
